@@ -371,6 +371,17 @@ class SigmaDetection(ParentChainMixin):
                 source=self.source,
             )
 
+        if (
+            self_detection_item_types == {SigmaDetection}
+            and self.item_linking is ConditionAND
+            and len(self.detection_items) > 1
+        ):
+            # Nested detections are written as list, which is OR-linked when it is loaded.
+            raise sigma_exceptions.SigmaValueError(
+                "Can't convert detection into plain value because it contains AND-linked detections",
+                source=self.source,
+            )
+
         detection_items = [  # first convert all detection items into a Python representation.
             detection_item.to_plain() for detection_item in self.detection_items
         ]
